@@ -772,7 +772,11 @@ where
             match ch.try_recv() {
                 Ok(Hit(hash, entry, timestamp)) => {
                     freq.increment(hash);
-                    entry.set_last_accessed(timestamp);
+                    // A read recorded before a later write (or read) of the same entry
+                    // must not move its last-accessed time backwards.
+                    if entry.last_accessed().map_or(true, |ts| ts < timestamp) {
+                        entry.set_last_accessed(timestamp);
+                    }
                     if entry.is_admitted() {
                         deqs.move_to_back_ao(&entry);
                     }
